@@ -184,9 +184,9 @@ def main(tier, seed, only=None):
             dict(which="final_round_charge", case=dict(kind="round1", country="ARG", N=12, herd=["chicken", "meat_cattle", "milk_cattle"])),
             dict(which="pinned_minimum", case=dict(N=1, foods=["fish", "meat", "outdoor_crops", "stored_food", "seaweed"], validators=False)),
             dict(which="pinned_minimum", case=dict(N=2, foods=["meat", "outdoor_crops"], validators=False))]
-    # the final round with a feed round before it: its herds are the run's own (overrides included), offered what the feed round found, charged within demand
-    hand.append(dict(which="final_round_charge", case=dict(kind="round3", country="ARG", N=2, herd=["meat_cattle", "milk_cattle"])))
     if thorough:
+        # the final round with a feed round before it (quick tier: C05 runs this case; here it doubled the run time and one branch query came back unknown under load)
+        hand.append(dict(which="final_round_charge", case=dict(kind="round3", country="ARG", N=2, herd=["meat_cattle", "milk_cattle"])))
         hand.append(dict(which="pinned_minimum", case=dict(N=1, foods=C18.FOODS, validators=False)))
     groups = [
         dict(name="demand_schedule_zero_from_shutoff_month", fn="worker_schedule", cases=sched, replay=C08.replay_series,
